@@ -39,6 +39,12 @@ type P4 struct {
 	X    int64  `json:"x"`
 }
 
+// P4b is a second member type for inlined one-ofs (members are told apart by their Go type when serializing).
+type P4b struct {
+	Kind string  `json:"kind"`
+	Z    *string `json:"z"`
+}
+
 type P5 struct {
 	Y string `json:"y"`
 }
@@ -82,6 +88,8 @@ func buildStruct(name, id string, props map[string]*schema.PropertySchema) *sche
 		return schema.NewStructMappedObjectSchema[P3](id, props)
 	case "P4":
 		return schema.NewStructMappedObjectSchema[P4](id, props)
+	case "P4b":
+		return schema.NewStructMappedObjectSchema[P4b](id, props)
 	case "P5":
 		return schema.NewStructMappedObjectSchema[P5](id, props)
 	case "*P5":
@@ -111,6 +119,8 @@ func ZeroStruct(name string) any {
 		return P3{}
 	case "P4":
 		return P4{}
+	case "P4b":
+		return P4b{}
 	case "P5":
 		return P5{}
 	case "*P5":
